@@ -11,6 +11,13 @@ RULES = [
  ("cosmos-sdk/x/gov/keeper/deposit.go", "DeleteDeposits", "callee-error-panics-in-caller", "error guards: NONE", L, "TM.GovCycle.adapter_burn_no_error_on_valid_or_empty + gov_endblock_no_panic: the adapter adds no check of its own; every recorded deposit is valid-or-EMPTY (msgCoinsOk_ok, upsert_spec) and covered by the gov module account (Inv)"),
  ("cosmos-sdk/x/staking/keeper/slash.go", "", "callee-error-panics-in-caller", "error guards: NONE", L, "TM.GovCycle.staking_burn_no_panic / slash_no_panic: burn*Tokens skip non-positive amounts, a single positive bond-denom coin is valid, the adapter adds no check; pool coverage is the staking module's own invariant (sdk-invariant)"),
  ("types/events.go", "EmitTypedEvent", "index", "event.Attributes[", G, "i, j are supplied by sort.SliceStable and range over len(event.Attributes)"),
+ # --- app life cycle (InitChainer, upgrade handlers)
+ ("app/app.go", "Teleport.SetEVMCode", "type-assert", "## operand from: NewAccountWithAddress", S, "constructed in place: AccountKeeper.NewAccountWithAddress returns a fresh copy of the configured account prototype (ethermint.ProtoAccount = *EthAccount) and the account already stored at the address is not consulted (it is overwritten) — TM.NoPanic.startup_total_every_account_kind; dynamic: the life-cycle probe (every account kind at the five system-contract addresses). An operand from a look-up (GetAccount …) would be kind lookup-type-assert = a new site"),
+ ("app/app.go", "Teleport.InitChainer", "panic", "panic(err)", S, "json.Unmarshal of the AppStateBytes the node itself produced from the validated genesis file; adapter manager InitGenesis deploys fixed system contracts"),
+ ("app/app.go", "Teleport.GetKey", "index", "app.keys[storeKey]", N, "map index"),
+ ("app/upgrades.go", "Teleport.registerUpgradeHandlers", "panic", "failed to read upgrade info from disk", U, "executes in NewTeleport (process start), not in InitChain / BeginBlock / EndBlock; listed because the function is the root that contains the v0.2 handler closure"),
+ ("x/xibc/genesis.go", "ResetStates", "panic", "storeKey must be xibc key", G, "guard of the function's own precondition; the only caller (v0.2 upgrade handler) passes app.GetKey(xibchost.StoreKey)"),
+ ("types/hashing.go", "rlpHash", "lookup-type-assert", "hasherPool.Get()", S, "hasherPool.New always returns sha3.NewLegacyKeccak256(), a crypto.KeccakState (a sync.Pool only returns what New or Put supplied, and Put is only called with that value)"),
  # --- bsc
  ("bsc/types/client_state.go", "ClientState.Initialize", "div", "% m.Epoch", L, "TM.NoPanic.bsc_init_guarded (ClientState.Validate rejects Epoch = 0 — fixes/C15-bsc-clientstate-validate)"),
  ("bsc/types/client_state.go", "ClientState.UpgradeState", "div", "% m.Epoch", L, "TM.NoPanic.bsc_upgrade_guarded"),
